@@ -33,7 +33,7 @@ FORBIDDEN_IMPORTS = {"time", "random", "datetime", "secrets", "uuid"}
 def run(chk):
     E = LossEnv(chk.repo)
     chk.files = E.w.files
-    thorough = chk.tier == "thorough"
+    thorough = chk.full
     chk.rule("C20.R1", "evaluate() of every loss class with frozen arguments performs no write into its arguments", floor=10)
     chk.rule("C20.R2", "no store / delete / mutating call on parameter-reachable objects in the closure of the entry points", floor=60)
     chk.rule("C20.R3", "no wall-clock / host randomness / global state in the closure", floor=10)
